@@ -13,7 +13,7 @@ from props import c12 as C12       # Debug text -> generic tree words (the encod
 
 ID = "C13"
 DESIGN_REF = "DESIGN.md section 5, C13; design/C13.md"
-LEAN_TARGETS = ["PV.C13.Thm"]
+LEAN_TARGETS = ["PV.C13.Thm", "PV.C13.ParsedThm"]
 DRIVER = "drv_c13"
 HARNESS = {"bin": "pvh_c13", "features": "default"}
 THEOREMS = [
@@ -43,6 +43,19 @@ THEOREMS = [
     "PV.C13.fold_any_order_fails",
     "PV.C13.fstring_concat_pieces",
     "PV.C13.ordT_node_split",
+    # parser level: the trees the program-parser MODEL (PV.C02.parseRProgram) produces are SrcOrdered
+    "PV.C13.srcOrdered_of_ordM",
+    "PV.C13.toTree_conforms",
+    "PV.C13.ordM_locations_eq_spec",
+    "PV.C13.ordM_linear_eq_random",
+    "PV.C13.ordAt",
+    "PV.C13.parsed_ordM",
+    "PV.C13.parsed_tree_srcOrdered",
+    "PV.C13.parsed_tree_history_forward",
+    "PV.C13.parsed_tree_locations_eq_spec",
+    "PV.C13.parsed_tree_linear_eq_random",
+    "PV.C13.fstring_findings_reproduced",
+    "PV.C13.bom_tokenless_module_all_ranges",
 ]
 TRUSTED = [
     "Lean 4.33.0 kernel; axioms limited to propext, Classical.choice, Quot.sound",
@@ -61,6 +74,13 @@ TRUSTED = [
     "streams: on the tree the real parser produced (attached to the request) the driver computes the call history, the "
     "located trees of both locators, Forward and SrcOrdered, byte-identical with what the real fold did (recorded calls, "
     "every node's located range from derive(Debug) of the located trees)",
+    "the program-parser model PV.C02.parseRProgram (lean/PV/C02/RProg.lean, RParse.lean; C02's trusted base: ranges read off "
+    "python.lalrpop / function.rs / string.rs, tied by C02's ranged-program-model streams) and the conversion "
+    "lean/PV/C13/Parsed.lean toTree of its result into the generic tree (kind ids and field order guarded by kernel-checked "
+    "examples against the regenerated schema; leaf payloads not represented: the fold never inspects them). Tied to the code on "
+    "every run by the `*-pfold` streams: the model parser is run on the REAL tokens and spans, its tree must equal the real "
+    "parser's tree up to leaf payloads (skel), and the fold model run on the model's tree must answer byte-for-byte what the real "
+    "fold did on the real parse; the hypotheses and conclusions of the parser-level theorems are re-evaluated on every such input",
     "memchr2/memrchr2 modelled as first/last index of LF or CR; str::chars().count() on valid UTF-8 = number of "
     "non-continuation bytes; source length < 2^32",
     "tools/props/c13.py (generators, independent Python reference for row/column), tools/props/c12.py + "
@@ -68,14 +88,19 @@ TRUSTED = [
     "derive(Debug) output), lean/Drv/C13.lean; rustpython_parser::parse as the source of trees",
 ]
 PARTIAL = [
-    "the tree-level theorems (fold_locations_eq_spec, fold_linear_eq_random, locHistory_forward) hold for every tree "
-    "that is SrcOrdered (ranges laid out in the order LinearLocator::fold visits them, offsets in the domain, f-string "
-    "pieces carrying the range of their JoinedStr). That every tree the PARSER produces is SrcOrdered is not proved (it "
-    "is a statement about the parser, C02's territory): the driver evaluates the Lean predicate on every real tree of "
-    "the `*-fold` streams (evidence: coverage.src_ordered_on_real_trees) and the real side reports the observable "
-    "equivalent (forward, panic-free fold on which both locators agree); all real trees are SrcOrdered except those of "
-    "the two listed findings. SrcOrdered does not follow from C02's rangesOk (which has no cross-field order): "
-    "see design/C13.md",
+    "parser-produced trees are SrcOrdered BY THEOREM only at model level and only for trees without f-string pieces "
+    "(parsed_tree_srcOrdered: hypotheses TiledP = C05's lexer theorem, plainM, OffsOk). plainM excludes ALL f-strings (C02's "
+    "window facts do not cover replacement fields: their inner span table is not shown to tile the source), which is more than "
+    "the two listed f-string findings that live there (fstring_findings_reproduced); for trees with f-strings SrcOrdered is "
+    "still evaluated per tree (`*-fold` / `*-pfold` streams, evidence coverage.src_ordered_on_real_trees and "
+    "coverage.ordM_on_model_parsed_trees)",
+    "OffsOk (every offset of the tree on a character boundary, not between a CR and its LF, not inside a leading BOM) is a "
+    "hypothesis on the OUTPUT offsets, decidable and evaluated on every stream input; its boundary part follows for parser "
+    "output from C02's parseRProgram_rangesOk_partial but is not re-derived on toTree; the CR LF / BOM parts are facts about "
+    "the lexer's token spans that no lexer theorem states (they fail exactly on the listed findings linear-offset-inside-crlf "
+    "and linear-bom-tokenless-module-all-ranges: bom_tokenless_module_all_ranges)",
+    "the parser-level theorems are about the MODEL parser PV.C02.parseRProgram on real token values; that the model computes "
+    "the real parser's ranges is sampled by the `*-pfold` streams here and by C02's ranged-program-model streams, not proved",
     "the property's literal 'whatever order the tree's nodes appear in' is false for the LinearLocator "
     "(fold_any_order_fails, fold_requires_order): it needs the tree in fold order",
     "the overrides of ast/src/source_locator.rs are transcribed by hand (not regenerated); a change there shows up as a "
@@ -115,7 +140,8 @@ LEVEL_TEXT = ("Machine-checked Lean 4 theorems. Locators (texts and call histori
               "independent Python reference.")
 LEVEL_NOTE = ("Trusted: Lean kernel (axioms propext/Classical.choice/Quot.sound only); fidelity of the hand-written locator "
               "model and of the transcribed overrides as sampled by the correspondence; the C12 translator for the "
-              "generated fold; that parser-produced trees are SrcOrdered is evaluated per real tree, not proved; Rust std "
+              "generated fold; the parser-level theorems speak about the model parser of C02 (tied per input by the pfold streams) and "
+              "exclude f-strings (evaluated per tree there); Rust std "
               "contracts (memchr, chars().count(), is_char_boundary); harness, hook, generators and the Python reference.")
 RULE = ("request lines sent to the real crates (and, for fold/trace/locseq/spec requests, to the Lean model); distinct = "
         "distinct request line; non-trivial = the program has at least one located node / the text is non-empty")
@@ -255,6 +281,24 @@ def oracle(req, out):
     ws = req.split()
     if out in ("(panic)", "(abort)", "(timeout)"):
         return "implementation " + out
+    if ws[0] == "pfold":
+        # same answer as `fold` plus ` chk=ok`; judged like `fold` (the model side folds the tree of the parser MODEL)
+        if out == "wrong-build":
+            return "harness build flavour does not match the request"
+        if not out.endswith(" chk=ok"):
+            return f"unparsable answer: {out[-80:]}"
+        d = _parse_fold(out[:-len(" chk=ok")])
+        if d is None:
+            return f"unparsable answer: {out[:80]}"
+        f = _judge_located(Ref(unhex(ws[3])), d)
+        if f:
+            return f
+        if not d["fwd"]:
+            return ("the fold drives the forward-only locator with a history that is not forward: "
+                    + _describe(_first_not_forward(unhex(ws[3]), d["trace"]), d["trace"]))
+        if not d["ordered"]:
+            return "the tree is not SrcOrdered although the fold was forward and every position is right"
+        return None
     if ws[0] == "fold":
         if out == "wrong-build":
             return "harness build flavour does not match the request"
@@ -391,7 +435,7 @@ def _source_of(req):
     ws = req.split()
     if ws[0] == "locate":
         return unhex(ws[2])
-    if ws[0] in ("trace", "fold"):
+    if ws[0] in ("trace", "fold", "pfold"):
         return unhex(ws[3])
     return None
 
@@ -431,9 +475,11 @@ def classify(req, impl_out, model_out, failure):
     src = _source_of(req)
     if src is None:
         return None
-    if ws[0] == "fold" and model_out is not None and model_out != impl_out:
+    if ws[0] in ("fold", "pfold") and model_out is not None and model_out != impl_out:
         return None         # the fold-order model mirrors the code as it is: a disagreement is never "known"
-    if ws[0] in ("locate", "fold"):
+    if ws[0] == "pfold" and (impl_out or "").endswith(" chk=ok"):
+        impl_out = impl_out[:-len(" chk=ok")]
+    if ws[0] in ("locate", "fold", "pfold"):
         d = _parse_locate(impl_out or "") if ws[0] == "locate" else _parse_fold(impl_out or "")
         if d is None or d["walk"] != "ok" or d["rnd"] != "ok":
             return None
@@ -1068,8 +1114,78 @@ def _fold_requests(hbin, locate_reqs, outs, jobs, max_cost=None, flavour="d"):
     return reqs
 
 
+
+# ------------------------------------------------------------------ the parser MODEL's trees (`pfold`, `pord`)
+#
+# `pfold <d|r> <mode> <src> <tokens> <spans> <tree words>`: a `fold` request plus the real token stream and its byte spans
+# (pvh_c01 `rtoks`, the attachment of C02's `rprog` requests).  The Lean side runs `PV.C02.parseRProgram` (the model of the
+# parser's range computation) on them, checks that `toTree false m` is the attached real tree, and answers the `fold` line
+# from THE MODEL'S tree; `chk=ok` = what the parser-level theorems (`parsed_tree_*`) say holds on this input.
+
+PARSED_STATS = {"model_parsed_trees": 0, "plain": 0, "ordM": 0, "plain_and_not_ordM": 0, "offs_ok_default": 0,
+                "src_ordered_default": 0, "ordM_offsok_not_src_ordered_default": 0, "offs_ok_all_ranges": 0,
+                "src_ordered_all_ranges": 0, "ordM_offsok_not_src_ordered_all_ranges": 0, "nonconforming": 0}
+
+
+def _rtoks_bin():
+    rc, log, hb = core.cargo_build("pvh_c01", "all-ranges")
+    return hb if rc == 0 else None
+
+
+def _pfold_requests(fold_reqs, jobs):
+    """`pfold` requests for the given `fold` requests (sources whose f-strings contain a named escape are left out: the
+    attachment rewriting changes the literal's length, see tools/props/c02.py)"""
+    from props import c02 as C02
+    from props import prog as PROG
+    hb = _rtoks_bin()
+    if hb is None or not fold_reqs:
+        return []
+    wss = [r.split(" ", 4) for r in fold_reqs]
+    ans = core.run_lines([hb], [f"rtoks {ws[2]} {ws[3]}" for ws in wss], jobs=jobs)
+    out = []
+    for ws, a in zip(wss, ans):
+        if a.startswith("(") or " " not in a:
+            continue
+        t, sp = a.split(" ")
+        if C02._rp_named_escape_in_fstring(t):
+            continue
+        out.append(f"pfold {ws[1]} {ws[2]} {ws[3]} {PROG.fix_attachment(t)} {sp} {ws[4]}")
+    return out
+
+
+def _pord_stats(pfold_reqs, jobs):
+    """run the driver's `pord` on the same inputs and add the verdicts to the evidence (statistics only: the same facts
+    are part of `chk=` in every `pfold` answer, which is what the check compares)"""
+    drv = core.driver_path(DRIVER)
+    if not os.path.exists(drv) or not pfold_reqs:
+        return
+    reqs = []
+    for r in pfold_reqs:
+        ws = r.split(" ", 6)
+        reqs.append(f"pord {ws[2]} {ws[3]} {ws[4]} {ws[5]}")
+    for a in core.run_lines([drv], reqs, jobs=jobs):
+        d = dict(kv.split("=") for kv in a.split() if "=" in kv)
+        if not d:
+            continue
+        t = lambda k: d.get(k) == "true"
+        PARSED_STATS["model_parsed_trees"] += 1
+        PARSED_STATS["plain"] += t("plain")
+        PARSED_STATS["ordM"] += t("ordm")
+        PARSED_STATS["plain_and_not_ordM"] += t("plain") and not t("ordm")
+        PARSED_STATS["offs_ok_default"] += t("ok0")
+        PARSED_STATS["src_ordered_default"] += t("so0")
+        PARSED_STATS["ordM_offsok_not_src_ordered_default"] += t("ordm") and t("ok0") and not t("so0")
+        PARSED_STATS["offs_ok_all_ranges"] += t("ok1")
+        PARSED_STATS["src_ordered_all_ranges"] += t("so1")
+        PARSED_STATS["ordM_offsok_not_src_ordered_all_ranges"] += t("ordm") and t("ok1") and not t("so1")
+        PARSED_STATS["nonconforming"] += (not t("conf0")) or (not t("conf1"))
+
+
 def streams(ctx):
     out = []
+    for k in PARSED_STATS:
+        PARSED_STATS[k] = 0
+    ctx.extra["ordM_on_model_parsed_trees"] = PARSED_STATS
     quick = ctx.quick
     _state.pop("fold_kinds", None)
     for k in ("trees", "src_ordered", "not_src_ordered"):
@@ -1108,6 +1224,16 @@ def streams(ctx):
                                    "real parser produced: call history, Forward, SrcOrdered and the located trees of both "
                                    "locators, byte-identical with the real fold" + tr_note,
                               nontrivial=lambda r: r.split()[3] != "-"))
+            if flavour == "d":
+                pf = _pfold_requests(fr, jobs)
+                _pord_stats(pf, jobs)
+                if pf:
+                  out.append(Stream(name + "-pfold", pf, kind=kind, harness=hs,
+                                  note="the program-parser MODEL (PV.C02.parseRProgram on the real tokens and spans): its tree must "
+                                       "be the real tree (kinds, ranges, field positions), the fold model run on THE MODEL'S tree "
+                                       "must answer what the real fold did, and the hypotheses / conclusions of the parser-level "
+                                       "theorems (plainM -> ordM, ordM and OffsOk -> SrcOrdered, Conforms) are evaluated (chk=ok)",
+                                    nontrivial=lambda r: r.split()[3] != "-"))
 
     # 1. corpus: constructs whose tree order differs from source order, in every line-ending/BOM variant
     corpus = []
@@ -1115,6 +1241,13 @@ def streams(ctx):
         corpus.extend(_variants(s))
     located("corpus", corpus, "corpus", note="hand-written programs x {LF, CRLF, CR, BOM, BOM+CRLF}")
     located("known-finding-probes", KNOWN_PROBES, "corpus", note="one deterministic probe per listed finding shape")
+    # 1a. the hand-written statement layouts of C02's program-model streams (every clause combination of every compound
+    #     statement, decorated definitions, every with-item alternative, every parameter-list section, imports, match
+    #     subjects and patterns, type parameters, CR / CRLF / BOM / tabs / continuation lines): chosen for the RANGES of the
+    #     statement-level nodes, which is what the `-pfold` companion (parser model -> fold model) needs
+    from props import c02 as _C02
+    located("statement-layouts", list(_C02.RP_LAYOUT), "corpus",
+            note="tools/props/c02.py RP_LAYOUT: ~260 hand-written statement layouts (Module mode)")
     # 1b. the all-nodes-with-ranges build: Arguments, ArgWithDefault, Comprehension, Keyword, WithItem, MatchCase ... carry
     #     ranges too and are located by the fold (a parameterless lambda used to give the forward-only locator a range that
     #     starts before its cursor: /repo 95d0600); both locators, every node, judged by the oracle
@@ -1256,7 +1389,7 @@ def search(ctx, disagreements, bins):
     reqs = []
     for e in disagreements[:20]:
         ws = e["request"].split()
-        if ws[0] in ("trace", "fold"):
+        if ws[0] in ("trace", "fold", "pfold"):
             reqs.append(f"locate {ws[2]} {ws[3]}")
         elif ws[0] == "locseq":
             t = unhex(ws[2])
